@@ -428,6 +428,7 @@ func (c *fsClient) freshState(root *Term) *State {
 func (c *fsClient) runEntry(fn *ssa.Function, runs *[]fsRun) {
 	c.entry = funcKey(fn)
 	x := newExec(c.p, c)
+	x.NormSubslice = true
 	ps := c.paramTerms(fn)
 	var root *Term
 	if len(ps) > 0 {
@@ -481,6 +482,7 @@ func (c *fsClient) runProtocol(runs *[]fsRun) {
 	closeF := c.p.MustFunc("(*Addition).Close")
 	c.entry = "Addition protocol"
 	x := newExec(c.p, c)
+	x.NormSubslice = true
 	stp := mk("param", "(*Stack).NewAddition.st", newAdd.Params[0].Type())
 	wr := mk("param", "(*Addition).Add.write", add.Params[1].Type())
 	st0 := c.freshState(stp)
